@@ -191,3 +191,91 @@ func TestFanoutBesideStalledConsumers(t *testing.T) {
 		}
 	})
 }
+
+// Consumers that attach at the same instant: K goroutines are released together
+// and each attaches a consumer to one stream (RTP, some FLV); then packets are
+// published. Every consumer must have an identity of its own — each receives
+// every packet published after the attach barrier, and detaching one of them
+// (by the id it was given) leaves all the others attached and receiving. The
+// window in which two attaches can collide is a few instructions wide, so this
+// is a free-running stress: many rounds per case, OS-chosen interleavings.
+func TestFanoutSimultaneousAttach(t *testing.T) {
+	evid.Checks(4, 80)
+	rapid.Check(t, func(t *rapid.T) {
+		k := rapid.IntRange(8, 24).Draw(t, "consumers")
+		rounds := rapid.IntRange(300, 700).Draw(t, "rounds")
+		h265 := rapid.Bool().Draw(t, "h265")
+		cdc := esgen.H264
+		if h265 {
+			cdc = esgen.H265
+		}
+		config.VerifSet(":0", false, false, "", 5)
+		s := media.NewStream("/c01/simul", mediah.SDP(cdc, false))
+		defer s.Close()
+		seq := 0
+		pk := func() *rtp.Packet {
+			seq++
+			nal := []byte{0x41, byte(seq >> 8), byte(seq), 1, 2, 3, 4}
+			if h265 {
+				nal = []byte{1 << 1, 1, byte(seq >> 8), byte(seq), 1, 2, 3}
+			}
+			return rtppack.ToIpchub(rtp.ChannelVideo, rtppack.Pkt{PT: 96, Seq: uint16(seq), TS: uint32(1000 + seq*3000), SSRC: 5, Marker: true, Payload: nal}.Marshal())
+		}
+		for r := 0; r < rounds; r++ {
+			evid.Eval(1)
+			recs := make([]*mediah.Rec, k)
+			cids := make([]media.CID, k)
+			var lined, release int64
+			done := make(chan struct{}, k)
+			for i := 0; i < k; i++ {
+				i := i
+				recs[i] = mediah.NewRec(fmt.Sprint(i))
+				go func() {
+					atomicAdd(&lined, 1)
+					for atomicLoad(&release) == 0 { // all leave the line together
+						yield()
+					}
+					cids[i] = s.StartConsume(recs[i], media.RTPPacket, fmt.Sprint(i))
+					done <- struct{}{}
+				}()
+			}
+			for atomicLoad(&lined) < int64(k) {
+				yield()
+			}
+			atomicAdd(&release, 1)
+			for i := 0; i < k; i++ {
+				<-done
+			}
+			desc := map[string]any{"consumers": k, "round": r, "codec": cdc.String(), "ids": fmt.Sprint(cids)}
+			seen := map[media.CID]int{}
+			for i, c := range cids {
+				if j, dup := seen[c]; dup {
+					evid.Violation(t, "simultaneous-attach-identity", desc, "round %d: consumers %d and %d, attached at the same instant, were given the same id %d (ids %v): one of them replaces the other in the fan-out table", r, j, i, c, cids)
+				}
+				seen[c] = i
+			}
+			if n := s.ConsumerCount(); n != k {
+				evid.Violation(t, "simultaneous-attach-count", desc, "round %d: %d consumers attached at the same instant, the stream counts %d", r, k, n)
+			}
+			p0, p1 := pk(), pk()
+			s.WriteRtpPacket(p0)
+			// the first consumer leaves by the id it was given; everybody else stays
+			s.StopConsume(cids[0])
+			s.WriteRtpPacket(p1)
+			for i := 1; i < k; i++ {
+				i := i
+				if !mediah.WaitFor(bound, func() bool { return recs[i].Len() >= 2 }) {
+					evid.Violation(t, "simultaneous-attach-delivery", desc, "round %d: consumer %d of %d attached at the same instant received %d of the 2 packets published afterwards (consumer 0 was detached between them; ids %v)", r, i, k, recs[i].Len(), cids)
+				}
+				if g := recs[i].Got(); g[0] != media.Pack(p0) || g[1] != media.Pack(p1) {
+					evid.Violation(t, "simultaneous-attach-delivery", desc, "round %d: consumer %d received other objects than the two published packets", r, i)
+				}
+			}
+			for i := 1; i < k; i++ {
+				s.StopConsume(cids[i])
+			}
+		}
+		evid.ClassN("simultaneous attach rounds", int64(rounds))
+		evid.Nontrivial(evid.FP("simul", k, rounds, h265))
+	})
+}
